@@ -429,6 +429,8 @@ fn run<const NE: usize>(steps: &[String]) -> String {
     let notes: RefCell<Vec<String>> = RefCell::new(Vec::new());
     let evn = Cell::new(0u64);
     let session_gen = Cell::new(0u16);
+    // when the subscriber last received anything for a subscription
+    let last_rx: RefCell<BTreeMap<u32, u64>> = RefCell::new(BTreeMap::new());
     // (reported_at, attribute watermark, event watermark) of every table subscription as last explained by the trace
     let last_state: RefCell<BTreeMap<u32, (u64, u64, u64)>> = RefCell::new(BTreeMap::new());
 
@@ -492,6 +494,12 @@ fn run<const NE: usize>(steps: &[String]) -> String {
             }
             if !alive || !i.established || i.ended_by_script {
                 continue;
+            }
+            // the instant liveness and expiry are measured from is never later than the last message the subscriber got
+            if let (Some(v), Some(rx)) = (snap.subscriptions.iter().find(|s| s.id == *sid), last_rx.borrow().get(sid)) {
+                if v.reported_at != Instant::MAX && v.fail_count == 0 {
+                    write!(fin, " P:{}:{}:{}", sid, ms(v.reported_at), rx).unwrap();
+                }
             }
             for k in 0..NEAR {
                 if i.mask & (1 << k) != 0 {
@@ -578,6 +586,7 @@ fn run<const NE: usize>(steps: &[String]) -> String {
                         for (k, v) in &h.chunk.attrs {
                             known.borrow_mut().insert((h.sid, *k), *v);
                         }
+                        last_rx.borrow_mut().insert(h.sid, ms(Instant::now()));
                         got_events.borrow_mut().entry(h.sid).or_default().extend(h.chunk.events.iter().copied());
                     } else {
                         notes.borrow_mut().push(format!("report-for-unknown-subscription:{}", h.sid));
@@ -674,7 +683,8 @@ fn run<const NE: usize>(steps: &[String]) -> String {
                                                 let mut tr = trace.borrow_mut();
                                                 let t = tr.time();
                                                 let l = tr.lag();
-                                                tr.times[t] = Some(cur.0);
+                                                // (an unsent report leaves reported_at alone: then the time is ours)
+                                                tr.times[t] = Some(if cur.0 == old.0 { ms(Instant::now()) } else { cur.0 });
                                                 tr.lags[l] = Some(evn.get().saturating_sub(cur.2));
                                                 if iter_open.is_none() {
                                                     tr.op(format!("W:{{t{}}}", t));
@@ -687,7 +697,7 @@ fn run<const NE: usize>(steps: &[String]) -> String {
                                                         tr.op_ans(format!("R:{}:{}", v.id, k), false);
                                                     }
                                                 }
-                                                tr.op(format!("X:{}:o", v.id));
+                                                tr.op(format!("X:{}:s", v.id));
                                                 iter_open = Some((t, l));
                                             }
                                         }
